@@ -13,6 +13,7 @@ PLUG = "src/deep/api/plugin/__init__.py"
 SPAN = "src/deep/processor/context/span_action.py"
 METR = "src/deep/processor/context/metric_action.py"
 SNAP = "src/deep/processor/context/snapshot_action.py"
+CFGS = "src/deep/config/tracepoint_config.py"
 
 CASES = []
 
@@ -178,11 +179,15 @@ M("c20-resource-unguarded", "C20", "C20.ISO", (DEEP, """            try:
                 if plugin_resource:
                     default_resource = default_resource.merge(plugin_resource)
             except Exception:
-                deep.logging.exception("Failed to process plugin resource {}", provider.name)
+                # do not read anything from the plugin in here, a failure in the handler would stop deep from starting
+                deep.logging.exception("Failed to process plugin resource %s", provider)
 """, """            plugin_resource = provider.resource()
             if plugin_resource:
                 default_resource = default_resource.merge(plugin_resource)
 """))
+M("c20-handler-reads-plugin-name", "C20", "C20.ISO", (DEEP, 'deep.logging.exception("Failed to process plugin resource %s", provider)', 'deep.logging.exception("Failed to process plugin resource %s", provider.name)'))
+M("c14-handler-reads-plugin-name", "C14", "C14.D", (DEEP, 'deep.logging.exception("Failed to shutdown plugin %s", plugin)', 'deep.logging.exception("Failed to shutdown plugin %s", plugin.name)'))
+M("c20-logging-wrapper-formats-eagerly", "C20", "C20.ISO", ("src/deep/logging/__init__.py", 'logging.getLogger("deep").exception(msg, *args, exc_info=exc_info, **kwargs)', 'logging.getLogger("deep").exception(msg % args if args else msg, exc_info=exc_info, **kwargs)'))
 M("c20-result-guard-removed", "C20", "C20.ISO", ("src/deep/processor/context/trigger_context.py", """            try:
                 new_callback = result.process(self)
                 if new_callback is not None:
@@ -498,3 +503,14 @@ M("c02-watch-wrong-expression", "C02", "C02.SNAP", (ACX, "            return Wat
 M("c02-dict-child-wrong-value", "C02", "C02.CHILD", (VPF, "NodeValue(func(type_name, safe_str(key)), value[key], safe_str(key))", "NodeValue(func(type_name, safe_str(key)), key, safe_str(key))"))
 M("c02-list-child-names", "C02", "C02.CHILD", (VPF, "nodes.append(Node(value=NodeValue(str(total), val_), parent=parent_node))", "nodes.append(Node(value=NodeValue(str(val_), val_), parent=parent_node))"))
 R("c02-inline-locals", "C02", (FCOL, "        lineno = frame.f_lineno\n        filename = frame.f_code.co_filename\n        func_name = frame.f_code.co_name\n", "        code = frame.f_code\n        lineno = frame.f_lineno\n        filename = code.co_filename\n        func_name = code.co_name\n"))
+
+# coalescing done right (flag cleared before the state is read) stays silent; cleared after publishing is a lost update
+R("c12-coalesce-flag-cleared-first", "C12",
+  (CFGS, "        self._update_lock = threading.Lock()\n", "        self._update_lock = threading.Lock()\n        self._unpublished = False\n"),
+  (CFGS, "        ts = self._last_update\n        if self._task_handler is not None:", "        ts = self._last_update\n        self._unpublished = True\n        if self._task_handler is not None:"),
+  (CFGS, "        with self._update_lock:\n            current_hash = self._current_hash", "        with self._update_lock:\n            if not self._unpublished:\n                return\n            self._unpublished = False\n            current_hash = self._current_hash"))
+M("c12-coalesce-flag-cleared-last", "C12", "C12.ORDER",
+  (CFGS, "        self._update_lock = threading.Lock()\n", "        self._update_lock = threading.Lock()\n        self._unpublished = False\n"),
+  (CFGS, "        ts = self._last_update\n        if self._task_handler is not None:", "        ts = self._last_update\n        self._unpublished = True\n        if self._task_handler is not None:"),
+  (CFGS, "        with self._update_lock:\n            current_hash = self._current_hash", "        with self._update_lock:\n            if not self._unpublished:\n                return\n            current_hash = self._current_hash"),
+  (CFGS, "                    logging.exception(\"Error updating listener %s\", listeners)\n", "                    logging.exception(\"Error updating listener %s\", listeners)\n            self._unpublished = False\n"))
